@@ -91,7 +91,8 @@ Proof. revert par; induction revs as [|x r IH]; [congruence|]. intros par _. des
 Lemma push_check_add ac t hist del nr : push_check ac t hist del = PAdd nr -> nr <> [].
 Proof.
   unfold push_check. destruct (split_known t hist []) as [news par]. destruct news as [|x r]; [discriminate|].
-  destruct (illegal_conflict _ _ _ _ _); [discriminate|]. intros H; inv H. destruct r; cbn; discriminate.
+  destruct (illegal_conflict _ _ _ _ _); [discriminate|]. destruct (gens_ok _ _); [|discriminate].
+  intros H; inv H. destruct r; cbn; discriminate.
 Qed.
 
 Lemma init_inv ops : Inv (init_world ops).
@@ -215,7 +216,7 @@ Section Fixed.
     intros I Hn Ho Hp. unfold prepare. cbn zeta.
     assert (Hsame : Permutation (carried_seqs (w_docseq w) (w_unusedseqs w)) ([] ++ wcar w)) by reflexivity.
     assert (He0 : extra_ok s [] (last s)) by (left; auto).
-    set (plan := match w_push (w_op w) with [] => _ | _ => _ end).
+    set (plan := plan_of _ _ _ _ _ _).
     destruct plan as [[| | |newrevs]|] eqn:Eplan; cbn [finish_failed].
     - apply fail_case with (extra := []); auto; discriminate.
     - apply fail_case with (extra := []); auto; discriminate.
@@ -226,7 +227,7 @@ Section Fixed.
       + cbn [finish_failed]. apply fail_case with (extra := extra); auto; discriminate.
       + (* prepared *)
         assert (Hnr : newrevs <> []).
-        { subst plan. destruct (w_push (w_op w)) eqn:Epush.
+        { subst plan. unfold plan_of in Eplan. destruct (w_push (w_op w)) eqn:Epush.
           - destruct (put_check _ _ _ _); [|discriminate]. destruct (dig_lookup _ _); [|discriminate].
             destruct (has_rev _ _); inv Eplan. discriminate.
           - inv Eplan. eapply push_check_add; eauto. }
@@ -261,14 +262,12 @@ Section Fixed2.
       destruct (w_fail_write (w_op w)).
       + cbn [finish_failed]. apply (fail_case s i w (w_docseq w) (w_unusedseqs w) OFailed [] (last s) I Hn); [reflexivity | left; auto | discriminate].
       + (* commit *)
-        set (wa := {| w_op := w_op w; w_attempt := w_attempt w; w_matchrev := w_matchrev w; w_docseq := 0; w_unusedseqs := []; w_prep := None;
-                      w_out := Some (OAck (p_rev p) (d_seq (p_doc p))) |}).
-        set (c := {| c_rev := p_rev p; c_parent := rev_parent_of (p_doc p) (p_rev p); c_seq := d_seq (p_doc p);
-                     c_unused := d_unused (p_doc p); c_prevseq := d_seq (st s) |}).
+        set (wa := acked_writer w p).
+        set (c := commit_of i w p (d_seq (st s))).
         destruct (flat_map_set_nth wcar i wa (ws s) w Hn) as (rest & P1 & P2).
         assert (Pacc : Permutation (acc {| st := p_doc p; last := last s; released := released s; ws := set_nth i wa (ws s); commits := commits s ++ [c] |}) (acc s)).
         { assert (Hwa : wcar wa = []) by reflexivity.
-          assert (Hc : cseqs c = wcar w) by (unfold cseqs; subst c; cbn [c_seq c_unused]; rewrite Hds, Hus, (wcar_pos w Hpos); reflexivity).
+          assert (Hc : cseqs c = wcar w) by (unfold cseqs; subst c; cbn [commit_of c_seq c_unused]; rewrite Hds, Hus, (wcar_pos w Hpos); reflexivity).
           unfold acc; cbn [commits released ws]. rewrite P2, P1, flat_map_app. cbn [flat_map]. rewrite app_nil_r, Hwa, Hc. cbn [app].
           set (C := flat_map cseqs (commits s)). set (R := released s). set (X := wcar w).
           rewrite <- app_assoc. apply Permutation_app_head. rewrite !app_assoc. apply Permutation_app_tail, Permutation_app_comm. }
@@ -288,7 +287,7 @@ Section Fixed2.
           { rewrite (nth_error_set_nth_eq _ _ _ _ Hn) in Hj. inv Hj. split; reflexivity. }
           rewrite nth_error_set_nth_neq in Hj by assumption. exact (inv_done s I j wj Hj Hoj).
         * destruct (inv_commits s I) as (Hc1 & Hc2).
-          destruct (commits_ok_app 0 (commits s) c Hc1) as (H1 & H2); subst c; cbn [c_prevseq c_seq]; auto; lia.
+          destruct (commits_ok_app 0 (commits s) c Hc1) as (H1 & H2); subst c; cbn [commit_of c_prevseq c_seq]; auto; lia.
         * intros j wj r q Hj Hoj. destruct (Nat.eq_dec i j) as [<-|Hne].
           { rewrite (nth_error_set_nth_eq _ _ _ _ Hn) in Hj. inv Hj. cbn in Hoj. inv Hoj. split.
             - rewrite Htree, has_rev_app, Hin. apply orb_true_r.
